@@ -29,7 +29,7 @@ import os, re, subprocess, time
 import mirfmt
 from mirfmt import Unsupported, split_top
 
-Z3 = "/usr/bin/z3"
+Z3 = os.environ.get("VERIF_Z3", "/usr/bin/z3")
 K = 3
 
 
@@ -137,7 +137,7 @@ class LoopExec:
         base = ["(bvule %s (_ bv%d 8))" % (pop, K)]
         q = "(set-logic ALL)\n" + "\n".join(decl) + "\n" + "\n".join("(assert %s)" % a for a in base + asserts) + "\n(check-sat)\n(get-value (mask s))\n"
         t0 = time.time()
-        p = subprocess.run([Z3, "-in", "-T:120"], input=q, capture_output=True, text=True)
+        p = subprocess.run([Z3, "-in", "-T:600"], input=q, capture_output=True, text=True)
         self.queries += 1
         self.solver_s += time.time() - t0
         out = p.stdout.strip()
@@ -291,8 +291,13 @@ class LoopExec:
         return self.operand(env, rv)
 
 
-def check(mir, src):
+def check(mir, src, k=None, solver=None):
     """returns dict(verdict, detail, queries, solver_s, counterexample)"""
+    global K, Z3
+    if k:
+        K = k
+    if solver:
+        Z3 = solver
     fn = mirfmt.find_fn(mir, r"make_table\(")
     if "ORDERED_SQUARES" not in mir[mir.find("make_table::promoted[0]"):mir.find("make_table::promoted[0]") + 600] and "ORDERED_SQUARES" not in fn:
         # the iterated constant is a promoted reference to ORDERED_SQUARES
